@@ -11,11 +11,50 @@ MUTABLE_CTORS = {"dict", "list", "set", "defaultdict", "collections.defaultdict"
                  "weakref.WeakValueDictionary", "WeakKeyDictionary"}
 
 
-def module_state_refs(func) -> list[tuple[str, ast.AST]]:
-    """Module-level *mutable containers* (of the function's own module) the function reads or
-    writes: candidates for hidden state shared between calls."""
-    mod = func.module
-    mutable = {}
+BENIGN_CTORS = {"TypeVar", "typing.TypeVar", "logging.getLogger", "getLogger", "struct.Struct", "Struct",
+                "re.compile", "frozenset", "tuple", "object", "threading.Lock", "threading.RLock",
+                "Lock", "RLock", "namedtuple", "collections.namedtuple", "NewType", "typing.NewType",
+                "int", "str", "bytes", "float", "bool", "property", "staticmethod", "classmethod",
+                "datetime.datetime", "datetime.timedelta", "datetime.date", "timedelta", "datetime",
+                "MappingProxyType", "types.MappingProxyType", "range", "len", "max", "min", "sum",
+                "datetime.datetime.fromtimestamp", "datetime.datetime.strptime", "int.from_bytes"}
+BENIGN_DECORATORS = {"property", "staticmethod", "classmethod", "abstractmethod", "abc.abstractmethod",
+                     "functools.wraps", "wraps", "contextmanager", "contextlib.contextmanager",
+                     "overload", "typing.overload", "dataclass", "dataclasses.dataclass"}
+
+
+def _stateful_value(val: ast.expr | None, mod) -> str | None:
+    """Why the value of a module- or class-level binding is an object that can carry state from one
+    call to the next (None: it cannot, or it is one of the stateless kinds)."""
+    if val is None:
+        return None
+    if isinstance(val, (ast.Dict, ast.List, ast.Set, ast.DictComp, ast.ListComp, ast.SetComp)):
+        return "mutable container"
+    if isinstance(val, ast.Call):
+        nm = A.call_name(val)
+        if nm in MUTABLE_CTORS:
+            return "mutable container"
+        if nm in BENIGN_CTORS:
+            return None
+        if nm.split(".")[-1] == "local":
+            return "thread-local storage"
+        if nm in ("bytearray", "memoryview", "io.BytesIO", "BytesIO", "array.array"):
+            return "mutable buffer"
+        ci = mod.lookup_class(nm) if "." not in nm else None
+        if ci is not None:
+            model = mod.model
+            names = {c.name for c in model.mro(ci)} | set(model.base_names(ci))
+            if names & {"Exception", "BaseException", "Enum", "IntEnum", "Flag", "IntFlag", "NamedTuple"}:
+                return None
+            return f"instance of {ci.name}"
+    return None
+
+
+def _module_state(mod) -> dict:
+    cache = mod.__dict__.get("_stateful_globals")
+    if cache is not None:
+        return cache
+    out = {}
     for st in mod.tree.body:
         tg, val = None, None
         if isinstance(st, ast.Assign) and len(st.targets) == 1 and isinstance(st.targets[0], ast.Name):
@@ -24,48 +63,145 @@ def module_state_refs(func) -> list[tuple[str, ast.AST]]:
             tg, val = st.target.id, st.value
         if tg is None:
             continue
-        if isinstance(val, (ast.Dict, ast.List, ast.Set, ast.DictComp, ast.ListComp, ast.SetComp)) or \
-                (isinstance(val, ast.Call) and A.call_name(val) in MUTABLE_CTORS):
-            mutable[tg] = st
+        why = _stateful_value(val, mod)
+        if why:
+            out[tg] = (st, why)
+    mod.__dict__["_stateful_globals"] = out
+    return out
+
+
+def _closure_state(deco_fn) -> list[str]:
+    """Mutable locals of a decorator (factory) that the function it returns keeps reading: state
+    that lives as long as the decorated function."""
+    node = deco_fn.node
+    stateful = {}
+    for st in node.body:
+        if isinstance(st, ast.Assign) and len(st.targets) == 1 and isinstance(st.targets[0], ast.Name):
+            if _stateful_value(st.value, deco_fn.module):
+                stateful[st.targets[0].id] = st
+        elif isinstance(st, ast.AnnAssign) and isinstance(st.target, ast.Name):
+            if _stateful_value(st.value, deco_fn.module):
+                stateful[st.target.id] = st
+    used = set()
+    for inner in ast.walk(node):
+        if inner is node or not isinstance(inner, (ast.FunctionDef, ast.Lambda, ast.AsyncFunctionDef)):
+            continue
+        for n in ast.walk(inner):
+            if isinstance(n, ast.Name) and n.id in stateful:
+                used.add(n.id)
+            elif isinstance(n, ast.Nonlocal):
+                used.update(n.names)
+    return sorted(used)
+
+
+def module_state_refs(func) -> list[tuple[str, ast.AST]]:
+    """Objects that outlive a call which the function reads or writes: candidates for hidden state
+    shared between calls.  Module-level mutable containers, buffers, thread-local storage and
+    instances of repository classes (of the function's module or imported into it); state kept on
+    the class object; closures of repository decorators; memoising decorators."""
+    mod = func.module
+    model = mod.model
     local = {a.arg for a in func.node.args.args + func.node.args.kwonlyargs}
     for n in A.walk_no_nested(func.node):
         if isinstance(n, ast.Name) and isinstance(n.ctx, ast.Store):
             local.add(n.id)
+    glob_decl = {nm for n in A.walk_no_nested(func.node) if isinstance(n, ast.Global) for nm in n.names}
+    local -= glob_decl
     out = []
     for n in A.walk_no_nested(func.node):
-        if isinstance(n, ast.Name) and n.id in mutable and n.id not in local:
+        if not isinstance(n, ast.Name) or n.id in local:
+            continue
+        if n.id in glob_decl and isinstance(n.ctx, ast.Store):
+            out.append((n.id, n))
+            continue
+        b = mod.lookup(n.id)
+        if b is None or b.kind != "assign":
+            continue
+        st = _module_state(b.module).get(b.name)
+        if st is not None:
             out.append((n.id, n))
     # state kept on the class object: stores through cls / self.__class__ / type(self) / the class
-    # name, and class-level mutable containers reached through self / cls
+    # name, and class-level stateful objects reached through self / cls
     ci = func.cls
     if ci is not None:
-        model = mod.model
         mro = model.mro(ci)
         cls_names = {c.name for c in mro} | {"cls"}
         cls_mutable = {}
         for c in mro:
             for k, v in c.class_assigns.items():
-                if isinstance(v, (ast.Dict, ast.List, ast.Set, ast.DictComp, ast.ListComp, ast.SetComp)) or \
-                        (isinstance(v, ast.Call) and A.call_name(v) in MUTABLE_CTORS):
+                if _stateful_value(v, c.module):
                     cls_mutable.setdefault(k, c)
 
         def is_class_obj(e):
             d = ast.unparse(e).replace(" ", "")
             return d in cls_names or d in ("self.__class__", "type(self)")
+        # an instance attribute of the same name (assigned through self in any method of the
+        # class) shadows the class-level object
+        shadowed = set()
+        for c in mro:
+            for m in c.all_funcs:
+                for n in A.walk_no_nested(m.node):
+                    if isinstance(n, ast.Attribute) and isinstance(n.ctx, ast.Store) \
+                            and A.dotted(n.value) == "self" and n.attr in cls_mutable:
+                        shadowed.add(n.attr)
         for n in A.walk_no_nested(func.node):
             if isinstance(n, ast.Attribute) and isinstance(n.ctx, ast.Store) and is_class_obj(n.value):
                 out.append((f"class attribute {n.attr}", n))
             elif isinstance(n, ast.Call) and A.call_name(n) == "setattr" and n.args and is_class_obj(n.args[0]):
                 out.append(("class attribute (setattr)", n))
             elif isinstance(n, ast.Attribute) and n.attr in cls_mutable and \
-                    (A.dotted(n.value) == "self" or is_class_obj(n.value)):
-                out.append((f"class-level container {n.attr}", n))
-    # decorators that memoise
+                    ((A.dotted(n.value) == "self" and n.attr not in shadowed) or is_class_obj(n.value)):
+                out.append((f"class-level object {n.attr}", n))
+    # decorators: memoising ones, and repository decorators whose closure keeps state
     for d in func.node.decorator_list:
         s = ast.unparse(d)
+        base = s.split("(")[0]
+        if base in BENIGN_DECORATORS or base.endswith((".setter", ".getter", ".deleter")):
+            continue
         if any(k in s for k in ("lru_cache", "cache", "memo")):
             out.append((s, d))
+            continue
+        dn = d.func if isinstance(d, ast.Call) else d
+        if isinstance(dn, ast.Name):
+            b = mod.lookup(dn.id)
+            if b is not None and b.kind == "func":
+                g = b.module.funcs.get(b.node.name)
+                if g is not None:
+                    for v in _closure_state(g):
+                        out.append((f"closure `{v}` of decorator {g.name}", d))
     return out
+
+
+def hidden_state_refs(func, E=None, depth: int = 4) -> list[tuple]:
+    """module_state_refs of *func* and of every repository function of the message package it
+    calls (resolved callees, properties included), with the call chain."""
+    if E is None:
+        from ..effects import effects_of
+        E = effects_of(func.module.model)
+    out = []
+    seen = set()
+    todo = [(func, [])]
+    while todo:
+        g, chain = todo.pop(0)
+        if id(g.node) in seen:
+            continue
+        seen.add(id(g.node))
+        for r, n in module_state_refs(g):
+            out.append((r, n, chain, g))
+        if len(chain) >= depth:
+            continue
+        for h in E.callees(g):
+            if ".message" in h.module.name or h.module is func.module:
+                todo.append((h, chain + [g.qualname]))
+        # a generator-based context manager runs on `with`: E.callees resolves the call
+    return out
+
+
+REGISTRIES = {"AVP_DICTIONARY", "AVP_VENDOR_DICTIONARY", "all_commands", "VENDORS"}
+
+
+def _via(chain) -> str:
+    return f" (reached through {' -> '.join(chain)})" if chain else ""
 
 
 def no_hidden_state(ctx: Ctx, rule: str, funcs, allowed: set[str]):
@@ -73,12 +209,55 @@ def no_hidden_state(ctx: Ctx, rule: str, funcs, allowed: set[str]):
                    "registries they are documented to consult", floor=len(funcs))
     for f in funcs:
         cons = f"{f.qualname}:module-state"
-        refs = module_state_refs(f)
+        refs = hidden_state_refs(f)
         ctx.use(f)
-        ctx.inst(cons, sample=sorted({r for r, _ in refs}))
-        bad = [(r, n) for r, n in refs if r not in allowed]
+        ctx.inst(cons, sample=sorted({r for r, _, _, _ in refs}))
+        bad = [x for x in refs if x[0] not in allowed and x[0] not in REGISTRIES]
         if bad:
-            r, n = bad[0]
-            ctx.fail(cons, f.loc(n), f"{f.qualname} reads/writes the shared (module- or class-level) state `{r}`: its "
+            r, n, ch, g = bad[0]
+            ctx.fail(cons, g.loc(n), f"{f.qualname} reads/writes the shared (module- or class-level) state `{r}`{_via(ch)}: its "
                      f"result depends on earlier calls (e.g. a class resolved once is returned for "
                      f"ever, although the request class or the command registry differs)")
+
+
+def as_bytes_encodes_current(ctx: Ctx, rule: str):
+    """Message.as_bytes encodes the AVPs the message holds *now*: every path to its return runs
+    the loop `for avp in self.avps: avp.as_packed(...)`.  The AVP list, the containers of grouped
+    AVPs and list attributes are handed out by reference and changed in place by the documented API
+    (`msg.route_record.append(...)`, `msg.x[0].y = ...`), which no setter observes: bytes kept
+    from an earlier encoding or from the wire cannot be known to be current."""
+    from ..cfg import cfg_of
+    from ..srcmodel import AnalysisError
+    model = ctx.model
+    msg = model.cls("message._base", "Message")
+    f = msg.methods.get("as_bytes")
+    if f is None:
+        raise AnalysisError("Message.as_bytes not found")
+    ctx.use(f)
+    ctx.rule(rule, "Message.as_bytes encodes the current AVP list on every path (no bytes kept from "
+                   "an earlier encoding or from the wire)", floor=1)
+    cons = "Message.as_bytes:encodes-current-avps"
+    ctx.inst(cons, rule=rule)
+    g = cfg_of(f, inline=False)
+    loops = [n for n in g.nodes if n.kind == "iter" and "avps" in ast.unparse(n.ast.iter)
+             and any(m.has_call(lambda nm, c: nm.endswith("as_packed") or nm.endswith("as_bytes"))
+                     for m in g.reach([d for l, d in n.succ if l == "iter"], blocked=[n]))]
+    if not loops:
+        # comprehension / join form
+        loops = [n for n in g.nodes if n.kind == "stmt" and any(
+            isinstance(x, (ast.ListComp, ast.GeneratorExp)) and "avps" in ast.unparse(x)
+            and ("as_packed" in ast.unparse(x) or "as_bytes" in ast.unparse(x)) for x in n.walk())]
+    if not loops:
+        ctx.fail(cons, f.loc(), "Message.as_bytes does not encode `self.avps` member by member", rule=rule)
+        return
+    r = g.reach([g.entry], blocked=loops)
+    if g.exit in r:
+        ret = [n for n in r if n.kind == "stmt" and isinstance(n.ast, ast.Return)]
+        ctx.fail(cons, g.loc(ret[0]) if ret else f.loc(),
+                 "a path through Message.as_bytes returns without encoding `self.avps`: the bytes it "
+                 "returns were produced earlier (kept from the wire or from a previous call) while "
+                 "the message's lists and grouped containers can be changed in place without any "
+                 "setter noticing - the changes never reach the wire and `msg.avps` disagrees with "
+                 "`msg.as_bytes()`", rule=rule,
+                 expected="every entry -> return path passes through the encode loop over self.avps",
+                 observed="a path around the loop")
